@@ -99,7 +99,7 @@ def install_contracts(I: Interp, heap: ExprHeap):
 # --------------------------------------------------------------------------- util.factor contract
 def c_factor(I, args, kwargs, f):
     """Contract of util.factor (proved against the loop in the C16 check):
-    value == 0 or NaN -> {} ; value < 0 -> {1: value};  otherwise a dict D whose keys are exactly
+    NaN -> {} ; value <= 0 -> {1: value};  otherwise a dict D whose keys are exactly
     1, value, and the pairs i, value/i for integers 2 <= i <= sqrt(value) with value/i an integer,
     and D[k] * k == value for every key k."""
     from .values import SymDict, DictObj
@@ -109,12 +109,8 @@ def c_factor(I, args, kwargs, f):
     if value is NAN:
         return DictObj({})
     if not isinstance(value, Num):
-        if isinstance(value, (int, float)) and value == 0:
-            return DictObj({})
         value = Num(zreal(value), (isinstance(value, float), False))
     v = z3.simplify(zreal(value))
-    if I.truth(v == 0, "factor:zero"):
-        return DictObj({})
     # np.sqrt(value) inside factor: a Python int outside [-2^63, 2^64) is not converted by numpy
     tg = tag_of(value)
     pyint = b_and(b_not(tg[0]), b_not(tg[1]))
@@ -532,6 +528,8 @@ class RuleRun:
             s.add(c_)
         for a in heap.pre_axioms(I):
             s.add(a)
+        for a in pow_instances(list(pc)):
+            s.add(a)
         # prefer small constants (util.factor is trial division: a boundary-sized model costs minutes natively)
         small = [z3.And(o.ghost["cval"] >= -1000, o.ghost["cval"] <= 1000) for o in list(heap.nodes) if isinstance(o.ghost, dict) and dict.__contains__(o.ghost, "cval")]
         s.push()
@@ -782,6 +780,11 @@ def pow_instances(terms) -> List[Any]:
     for b in bases.values():
         out.append(z3.And(POW(b, z3.RealVal(1)) == b, DEFPOW(b, z3.RealVal(1))))
         out.append(z3.And(POW(b, z3.RealVal(0)) == 1, DEFPOW(b, z3.RealVal(0))))
+    # where the real power is defined (as the evaluator computes it: 0^0 = 1, a pole or a negative base
+    # with a fractional exponent has no value)
+    for p in pows:
+        b, e = p.arg(0), p.arg(1)
+        out.append(DEFPOW(b, e) == z3.Or(b > 0, z3.And(b == 0, e >= 0), z3.And(b < 0, z3.IsInt(e))))
     return out
 
 
